@@ -42,7 +42,7 @@ ASSUMPTIONS = [
 ]
 RULE = ("generated Markdown documents (headings, prose of 0-60 lines, lists, quotes, non-recipe fences; 1-4 recipe blocks, "
         "indented with spaces/tabs or fenced with ```/~~~ of several lengths and indents, recipe/new-recipe, in top level / "
-        "quote / bullet and ordered list / on the marker line / quote in list / list in quote / nested list; files starting with 1-3 empty lines and / or a byte-order mark; blank lines "
+        "quote / bullet and ordered list / on the marker line / quote in list / list in quote / nested list; tab-separated prose and NFD (combining-mark) names before the fault; re-wrapped sibling documents (same listing at the same offset on another line) compiled in the same process; files starting with 1-3 empty lines and / or a byte-order mark; blank lines "
         "and multi-line statements inside blocks; missing final newline / closing fence) with ONE injected fault "
         "(redefinition, proportion of unknown name, stray token, unclosed parenthesis) at a statement position of a "
         "block, written with LF, CRLF and mixed line ends; a case is non-trivial when the fault is not on line 1; "
@@ -137,7 +137,11 @@ def locate(text: str, f: Dict[str, Any]) -> Tuple[Optional[str], int, bool, str,
     return (why, pos, fenced, src, o)
 
 
-def make_case(text: str, f: Dict[str, Any], tags: List[str]) -> Case:
+def make_case(text: str, f: Dict[str, Any], tags: List[str], after: Optional[List[str]] = None) -> Case:
+    """`after`: documents compiled earlier in the same process (sibling documents with the identical listing at the
+    identical offset on another line): the report must depend on the document at hand only."""
+    for earlier in after or []:
+        impl(earlier)
     res = impl(text)
     why, pos, fenced, src, o = locate(text, f)
     violation = oracle(text, f, res)
@@ -149,7 +153,7 @@ def make_case(text: str, f: Dict[str, Any], tags: List[str]) -> Case:
         out = coqio.pair(coqio.n_(res[1]), coqio.n_(res[2]), coqio.string(res[3]))
     cin = coqio.pair(coqio.string(text), coqio.n_(pos), coqio.boolean(fenced), coqio.string(src), coqio.n_(o))
     return Case(
-        input={"text": text, "fault": f}, coq_in=cin, coq_out=out,
+        input={"text": text, "fault": f, "after": list(after or [])}, coq_in=cin, coq_out=out,
         impl=None if res is None else {"error": res[0], "line": res[1], "column": res[2], "snippet": res[3]},
         violation=violation, nontrivial=f["file_line"] > 1, tags=tags,
     )
@@ -157,7 +161,7 @@ def make_case(text: str, f: Dict[str, Any], tags: List[str]) -> Case:
 
 def replay(inp: Any) -> Case:
     if "text" in inp:
-        return make_case(inp["text"], inp["fault"], ["replay"])
+        return make_case(inp["text"], inp["fault"], ["replay"], inp.get("after"))
     if "off" in inp:
         return linecol_case(inp["s"], inp["off"])
     return splitlines_case(inp["s"])
@@ -248,7 +252,22 @@ def doc_cases(rng: random.Random, n_docs: int, faults_per_doc: int, exhaustive: 
                 if not d.final_newline:
                     tags.append("no-final-newline")
                 tags.append("file-start:" + d.lead)
+                if b.stmts and any("\u0303" in l or "\u0300" in l or "\u0301" in l
+                                   for st in b.stmts[: d.fault["stmt"]] for l in st):
+                    tags.append("nfd-before-fault")
+                if "\t" in text.replace("\r\n", "\n")[: sum(len(l) + 1 for l in _lines[: b.start_line - 1])]:
+                    tags.append("tabs-before-block")
                 cases.append(make_case(text, f, tags))
+                # a sibling document compiled in the same process right after: same listing, same offset, other line
+                if eol != "mixed" and rng.random() < 0.5:
+                    d2 = mddocs.rewrap(d, rng)
+                    if d2 is not None:
+                        text2, _l2 = mddocs.render(d2, eol)
+                        _b2, j2, file_line2, rline2 = mddocs.fault_location(d2)
+                        f2 = dict(d2.fault, j=j2, file_line=file_line2, rline=rline2,
+                                  start_line=d2.blocks()[bi].start_line)
+                        if file_line2 != file_line:
+                            cases.append(make_case(text2, f2, tags + ["sibling-rewrapped"], after=[text]))
     return cases
 
 
